@@ -17,6 +17,7 @@ package main
 import (
 	"bufio"
 	"bytes"
+	crand "crypto/rand"
 	"flag"
 	"fmt"
 	"os"
@@ -32,6 +33,15 @@ import (
 	"verifharness/internal/sched"
 	"verifharness/internal/sim"
 )
+
+type detReader struct{ r *rng.R }
+
+func (d *detReader) Read(p []byte) (int, error) {
+	for i := range p {
+		p[i] = byte(d.r.U64())
+	}
+	return len(p), nil
+}
 
 var queryFns = map[string]bool{"WalletBalance": true, "AddressBalance": true, "getUtxos": true, "getUtxosExcludeBindingAndStaking": true}
 
@@ -154,7 +164,7 @@ func scheduledQuery(h *hist.H, ctl *sched.Ctl, wi *hist.WInfo, kind string, minc
 	for _, b := range pending {
 		fmt.Fprintf(&sb, " %d", h.BlkID[*b.Hash()])
 	}
-	fmt.Fprintf(&sb, " | %d", len(idxs))
+	fmt.Fprintf(&sb, " | %d 0", len(idxs)) // 0 = commits made before the read transaction began
 	for _, i := range idxs {
 		fmt.Fprintf(&sb, " %d", i)
 	}
@@ -236,6 +246,11 @@ func runOne(seed uint64, n int) ([]byte, error) {
 		return nil, err
 	}
 	defer h.Close()
+	// wallets get their mnemonics from a seeded stream: transaction hashes, hence the key order of
+	// the unspent bucket, are the same in every run of history n
+	old := crand.Reader
+	crand.Reader = &detReader{rng.New(seed*7 + uint64(n)*13 + 5)}
+	defer func() { crand.Reader = old }()
 	nW := 1 + r.Intn(2)
 	for i := 0; i < nW; i++ {
 		wi, err := h.NewWallet()
@@ -265,10 +280,12 @@ func runOne(seed uint64, n int) ([]byte, error) {
 		if n%4 == 0 && round == 0 {
 			force = 2 // two plain connects: the shape in which confs wraps
 		}
+		nre := st.reorgs
 		pend, err := pendingBlocks(h, r, force)
 		if err != nil {
 			return nil, err
 		}
+		pendReorg := st.reorgs != nre
 		plan := make([]int, len(pend))
 		for i := range plan {
 			plan[i] = r.Intn(maxReads + 2)
@@ -279,6 +296,18 @@ func runOne(seed uint64, n int) ([]byte, error) {
 		}
 		sort.Ints(plan)
 		kind := kinds[r.Intn(len(kinds))]
+		if kind == "SP" {
+			// the model has no pending set: the selection query is exercised only where no coin of
+			// the wallet is spent by a pending (rolled-back) transaction and no reorg is pending
+			for _, u := range o.Utxos {
+				if u.SpentUnmined {
+					kind = "UT"
+				}
+			}
+			if pendReorg {
+				kind = "UT"
+			}
+		}
 		minconf := uint32([]int{0, 1, 1, 2, int(sim.Cur.CoinbaseMaturity)}[r.Intn(5)])
 		var sel []*hist.AddrInfo
 		if kind == "AB" {
